@@ -43,6 +43,8 @@ theorem findEntry_spec (tbl : List LE) (d i : Int) (h : Option Ent → Option En
           simp only [h4]
           by_cases hl : 0 < u32dec le0.links <;> simp [hl]
 
+@[simp] theorem heldOf_nil : heldOf ([] : List LE) = [] := rfl
+
 theorem heldOf_append (a b : List LE) : heldOf (a ++ b) = heldOf a ++ heldOf b := by
   simp [heldOf, List.filterMap_append]
 
